@@ -159,6 +159,9 @@ func CheckImage(dir string, cfg Cfg, refs map[uint64]*txRef, maxAcked uint64, re
 					}
 				}
 			}
+			if md := e.Metadata(); md != nil && md.NonIndexable() {
+				continue // never reaches the index
+			}
 			latest[string(e.Key())] = l
 		}
 		res.Refs[id] = cur
